@@ -101,11 +101,14 @@ func init() {
 				pub = "https://cdn.example/x/"
 				v += ",publicpath=" + pub
 			}
-			if gr.Chance(1, 3) {
-				v += ",sourcemap=" + pickS(gr, "linked", "external")
+			if gr.Chance(1, 2) {
+				v += ",sourcemap=" + pickS(gr, "linked", "external", "inline", "inline", "both")
 			}
 			if gr.Chance(1, 3) {
 				v += pickS(gr, ",mw", ",ms,mi,mw")
+			}
+			if gr.Chance(1, 3) {
+				v += pickS(gr, ",legal=linked", ",legal=external")
 			}
 			files := map[string]string{}
 			for k, c := range g.Files {
@@ -123,6 +126,14 @@ func init() {
 			files[g.Entries[0]] = files[g.Entries[0]] + "export const dlp = import(\"./dl1.js\");\n"
 			if gr.Chance(1, 3) && strings.Contains(v, "sourcemap=") {
 				v += ",nosc"
+			}
+			if strings.Contains(v, "legal=linked") || strings.Contains(v, "legal=external") {
+				// legal comments that end up in <chunk>.LEGAL.txt files
+				for _, k := range []string{g.Entries[0], "dl1.js", "m1.js"} {
+					if c, ok := files[k]; ok && gr.Bool() {
+						files[k] = "/*! legal in " + k + " */\n" + c
+					}
+				}
 			}
 			dirA := filepath.Join(workdir, fmt.Sprintf("c18-%d-a", i))
 			dirB := filepath.Join(workdir, fmt.Sprintf("c18-%d-a", i)) // same absolute location: paths must not matter anyway
@@ -150,7 +161,24 @@ func init() {
 				target := names[gr.Intn(len(names))]
 				edit := ""
 				v2 := v
-				switch gr.Intn(7) {
+				choice := gr.Intn(8)
+				if e == 0 && (strings.Contains(v, "legal=linked") || strings.Contains(v, "legal=external")) {
+					choice = 7
+				}
+				switch choice {
+				case 7:
+					// the text of a legal comment that is written to a separate <chunk>.LEGAL.txt file
+					if strings.Contains(v, "legal=linked") || strings.Contains(v, "legal=external") {
+						if strings.Contains(files2[target], "/*! legal") {
+							files2[target] = strings.Replace(files2[target], "/*! legal", "/*! LEGAL edited", 1)
+						} else {
+							files2[target] = "/*! legal in " + target + " */\n" + files2[target]
+						}
+						edit = "legal comment text in " + target
+					} else {
+						files2[target] = files2[target] + "// another trailing comment\n"
+						edit = "comment-only edit in " + target
+					}
 				case 6:
 					// rename a local to an anagram: with minified identifiers only "names" in the map changes
 					files2["dl1.js"] = strings.Replace(files2["dl1.js"], "alpha", "halpa", -1)
